@@ -474,9 +474,19 @@ func genDefect(t *rapid.T) Case {
 		*c = (*c)[:1]
 	case "ordinates>4":
 		c := rapid.SampledFrom(cs).Draw(t, "coord")
-		for len(*c) < 5+rapid.IntRange(0, 2).Draw(t, "more") {
-			*c = append(append([]model.F{}, *c...), model.Of(7))
+		// five to seven, or a count at which a narrow counter has wrapped to 2, 3 or 4
+		want := 5 + rapid.IntRange(0, 2).Draw(t, "more")
+		if rapid.IntRange(0, 2).Draw(t, "manyords") == 0 {
+			want = rapid.SampledFrom([]int{8, 9, 16, 64, 255, 256, 257, 258, 259, 260, 261, 512, 514, 515, 516, 1026, 4099}).Draw(t, "nords")
+			if run.Thorough() && rapid.IntRange(0, 9).Draw(t, "hugeords") == 0 {
+				want = rapid.SampledFrom([]int{65538, 65539, 65540}).Draw(t, "nordshuge")
+			}
 		}
+		nc := append([]model.F{}, *c...)
+		for len(nc) < want {
+			nc = append(nc, model.Of(float64(len(nc)%10)))
+		}
+		*c = nc
 	case "arity":
 		c := rapid.SampledFrom(cs).Draw(t, "coord")
 		old := len(*c)
